@@ -9,8 +9,8 @@ RULE = ('libraries printed from the reference grammar of C01 (every declaration,
         'write_to_string(parse(s)) parses, parses to a library equal to parse(s) (Debug form, source positions ignored), and '
         'rendering that library again gives the same text; the same through the binary: `ironplcc echo` of a file, fed back to '
         '`ironplcc echo`, exits 0 twice and prints the same text; correspondence: the Lean parser mirror parses the rendered '
-        'text to the same tree as parse_program, and the Lean renderer model prints the same lexemes as write_to_string for '
-        'the statement/expression fragment; non-trivial = rendered text differs from the source text; distinct = distinct '
+        'text to the same tree as parse_program, the Lean renderer model prints the same lexemes as write_to_string, and '
+        'inside the model parse . render . parse is the identity on every explored library; non-trivial = rendered text differs from the source text; distinct = distinct '
         'feature set of the generated library')
 
 
@@ -167,6 +167,18 @@ def run(ctx):
                 ctx.corr_fail.append({'stream': 'render-lexemes', 'case': {'text': cases[i]['text']}, 'model': ' '.join(mtoks[max(0, d - 8):d + 8]),
                                       'impl': ' '.join(itoks[max(0, d - 8):d + 8])})
         ctx.hist['renderer-model:libraries-in-fragment'] = n_frag
+        # the round trip inside the model: parser mirror . renderer model . parser mirror = identity on the explored
+        # libraries (trees compared in canonical form: real literals by their binary64 value)
+        rt_idx = [i for i, m in zip(idx, mr) if m is not None and m.startswith('OK ')]
+        mtexts = {i: bytes.fromhex(m.split(' ')[1]).decode() for i, m in zip(idx, mr) if m is not None and m.startswith('OK ')}
+        p1 = core.run_lines(core.PLCDRV, ['parse ' + core.hexs(cases[i]['text']) for i in rt_idx], jobs=12)
+        p2 = core.run_lines(core.PLCDRV, ['parse ' + core.hexs(mtexts[i]) for i in rt_idx], jobs=12)
+        for i, a, b in zip(rt_idx, p1, p2):
+            ca, cb = canon_model(a), canon_model(b)
+            if ca != cb:
+                d = first_diff(ca, cb)
+                ctx.corr_fail.append({'stream': 'model-roundtrip', 'case': {'text': cases[i]['text']}, 'model': cb[max(0, d - 100):d + 100], 'impl': ca[max(0, d - 100):d + 100]})
+        ctx.hist['model-roundtrip:libraries'] = len(rt_idx)
     # ---- the binary: echo | echo
     sample = [c for c, r in zip(cases, rendered) if r is not None]
     rng.shuffle(sample)
